@@ -221,14 +221,23 @@ class Evaluator:
     def _inline_helper(self, f, args, kw, _depth=[0]):
         """A call to a private, undecorated, module-level helper of the package whose body is one `return <expr>` is
         replaced by that expression (extracting such a helper, or inlining it, is not a change of behaviour)."""
-        if f[0] != "ref" or not f[1].startswith("typelib.") or _depth[0] > 3:
+        static = None
+        if f[0] == "attr" and f[1] == ("param", "self") and self.self_class is not None and f[2].startswith("_") and not f[2].startswith("__") and _depth[0] <= 3:
+            # ... likewise a private @staticmethod of the class, called on self (it cannot touch the instance)
+            m = self.prog.lookup_method(self.self_class, f[2])
+            if m is not None and [d for d in m.decorators if d] == ["builtins.staticmethod"] and len(m.node.decorator_list) == 1:
+                static = m
+        if static is None and (f[0] != "ref" or not f[1].startswith("typelib.") or _depth[0] > 3):
             return None
-        mn, _, nm = f[1].rpartition(".")
-        mod = self.prog.modules.get(mn)
-        if mod is None or not nm.startswith("_") or nm.startswith("__") or f[1] in NOT_INLINED:
-            return None
-        fi = mod.functions.get(nm)
-        if fi is None or fi.node.decorator_list or isinstance(fi.node, ast.AsyncFunctionDef):
+        if static is not None:
+            nm, mod, fi = static.name, static.module, static
+        else:
+            mn, _, nm = f[1].rpartition(".")
+            mod = self.prog.modules.get(mn)
+            if mod is None or not nm.startswith("_") or nm.startswith("__") or f[1] in NOT_INLINED:
+                return None
+            fi = mod.functions.get(nm)
+        if fi is None or (fi.node.decorator_list and static is None) or isinstance(fi.node, ast.AsyncFunctionDef):
             return None
         body = [st for st in fi.node.body if not (isinstance(st, ast.Expr) and isinstance(st.value, ast.Constant))]
         # straight-line helpers: plain local assignments followed by one `return <expr>`
